@@ -175,7 +175,8 @@ def _cases(ctx):
     rng = ctx.rng('cases')
     texts = gen_docs.corpus_stream(rng, ctx.budget(1500, 12000))
     texts += [gen_docs.malformed(rng) for _ in range(ctx.budget(60, 600))]
-    texts += ['| a | b | c |\n|---|:-:|--:|\n| only one |\n', '`c` <http://x.y> \\* a', 'Foo\n===\n', '- a\n  - b\n\n    c\n',
+    texts += gen_docs.repetitive(rng, texts[:300], ctx.budget(300, 3000))
+    texts += ['| x | x |\n|---|---|\n| x | x |\n', '| a | b | c |\n|---|:-:|--:|\n| only one |\n', '`c` <http://x.y> \\* a', 'Foo\n===\n', '- a\n  - b\n\n    c\n',
               '> - `x`\n> - [l](u)\n', '[a]: /u\n\n[a]\n']
     return [(t, TOKEN_SETS[i % 4] if not ctx.thorough else None) for i, t in enumerate(texts)]
 
